@@ -3,6 +3,7 @@ package wire
 import (
 	"fmt"
 	"strings"
+	"sync/atomic"
 	"time"
 )
 
@@ -187,6 +188,9 @@ func (c *Client) Pipeline(cmds []Command, raws [][]byte) []PipeResult {
 			f, err = ReadBinFrame(c.R)
 		}
 		if err != nil {
+			if isTimeout(err) {
+				atomic.AddInt32(&timeouts, 1)
+			}
 			closed = true
 			break
 		}
